@@ -433,7 +433,7 @@ func (rn *runner) checkRead(c *Case) []failure {
 				continue
 			}
 			r.Outcome("reader:" + cfg + ":" + t.role + ":REJECTED")
-			out = append(out, failure{"reader:rejects-" + t.role + "-password:" + cfg, fmt.Sprintf("file written by the reference handler does not open with the %s password %q: %v", t.role, t.pw, err)})
+			out = append(out, failure{"reader:rejects-" + t.role + "-password:" + cfg + pwClass(c, t.pw, c.R), fmt.Sprintf("file written by the reference handler does not open with the %s password %q: %v", t.role, t.pw, err)})
 			continue
 		}
 		if f := verifyRead(g, c, bl, rd); f != nil {
